@@ -40,6 +40,7 @@ type Vars struct {
 	Sabotage  bool // leaf's body removes .dawn/build/temp, so that recording its result fails
 	Colon     bool // target //pkg:co:lon exists
 	XSrc      bool // leaf lists a second source, pkg/c.txt (the body sees the list through t.sources)
+	Broken    bool // pkg/BUILD.dawn declares leaf a second time right after the first (the load fails half-way through the file)
 	OtherAll  bool // target //pkg:other_all exists (its record name has the record name of //pkg:other as a proper prefix)
 	Diamond   bool // leaf also depends on gen, which mid reaches through the generated file (a shared dependency)
 	Missing   bool // top also depends on a target that does not exist
@@ -210,6 +211,9 @@ def _top(t):
 		p.WriteString("target(name=\"leaf\", function=_leaf, sources=" + leafSources(v) + ", deps=[\"//:gen\"])\n")
 	default:
 		p.WriteString("target(name=\"leaf\", function=_leaf, sources=" + leafSources(v) + ")\n")
+	}
+	if v.Broken {
+		p.WriteString("target(name=\"leaf\", function=_leaf)\n") // duplicate target: an error while the module runs
 	}
 	if v.Other {
 		p.WriteString("def _other(t):\n    step(\"other\")\n    emit(\"out/other\", \"other\")\ntarget(name=\"other\", function=_other)\n")
